@@ -132,6 +132,17 @@ func run(ci any, r *mon.Rec) {
 	r.Eval(1)
 	if err != nil {
 		r.Cover("builder", "error")
+		// the builder may refuse a list only for a reason: an invalid definition, or a field that no single request can
+		// carry (more than 125 registers, or running past address 65535)
+		feasible := true
+		for _, f := range fields {
+			if !fieldgen.Valid(f) || (!fieldgen.IsCoil(f) && (fieldgen.RegSize(f) > 125 || int(f.Address)+fieldgen.RegSize(f) > 65536)) {
+				feasible = false
+			}
+		}
+		if feasible {
+			r.Violate(c, "builder-refuses-valid-fields", mon.Attrs{}, fmt.Sprintf("%d valid fields, each of which fits one request: %v", len(fields), err))
+		}
 		return
 	}
 	r.Cover("builder", "requests")
